@@ -48,3 +48,108 @@ Theorem C01_convert_pointwise :
     voxel_in V c data x y z ch = Some (f (vol x y z ch)).
 Proof. exact convert_pointwise. Qed.
 Print Assumptions C01_convert_pointwise.
+
+(* ---- closed instances: raw codec, integer data types (proofs in
+   theories/Link/LinkVolumeProofs.v) ----
+   The abstract parameters of C01_convert_pointwise are instantiated: the
+   voxel type is the element type [num] of the data-type transformer, f is
+   the transformer [convert_scalar i o] of C11 itself, the codec is the
+   modelled RawChunkEncoder for the output type (item size [dt_isz o],
+   num_channels = nch) acting on chunks through the glue of LinkVolume.v.
+   The round-trip hypothesis is discharged by raw_roundtrip (C10), and
+   "encode always succeeds" is not assumed: the loop only encodes the chunks
+   it builds, whose length is right by construction and whose values are in
+   the output range because the transformer saturates (C11_int_to_int_exact). *)
+From NGS Require Import DType Convert LinkVolume LinkVolumeProofs.
+
+(* C01_convert_pointwise with "encode always succeeds" weakened to "encode
+   succeeds on the chunks the loop builds" (real encoders reject arrays of the
+   wrong shape or type); the raw instance below discharges that hypothesis *)
+Theorem C01_convert_pointwise_enc_on_grid :
+  forall (V : Type) (f : V -> V) (vol : Z -> Z -> Z -> Z -> V) (nch : Z) (bytes : Type)
+         (encode : list N -> vchunk V -> outcome bytes)
+         (decode : list N -> bytes -> triple -> outcome (vchunk V)),
+  (forall k ch b, encode k ch = Ok b -> decode k b (vshape V ch) = Ok ch) ->
+  forall key size cs,
+  (forall c, In c (vgrid size cs) -> exists b, encode key (mk_chunk V f vol nch c) = Ok b) ->
+  0 < nch -> pos_triple size -> pos_triple cs ->
+  let s := {| sc_key := key; sc_size := size; sc_chunk_sizes := [cs];
+              sc_voxel_offset := Some (0, 0, 0) |} in
+  let st := fst (run (vchunk V) bytes encode decode [s] []
+                     (convert_ops V f vol nch key size cs)) in
+  forall x y z ch,
+  let '(sx, sy, sz) := size in
+  0 <= x < sx -> 0 <= y < sy -> 0 <= z < sz -> 0 <= ch < nch ->
+  let c := chunk_of size cs x y z in
+  exists data,
+    read_chunk (vchunk V) bytes decode [s] st key c = Ok (extents c, data) /\
+    voxel_in V c data x y z ch = Some (f (vol x y z ch)).
+Proof. exact convert_pointwise_enc_on_grid. Qed.
+Print Assumptions C01_convert_pointwise_enc_on_grid.
+
+(* for EVERY integer input type i (signed or not), unsigned output type o,
+   volume size, chunk size, channel count and integer volume with values in
+   the range of i: every voxel, read back through read_chunk + voxel_in from
+   the raw-encoded chunk that holds it, is the input value saturated into the
+   range of o *)
+Theorem C01_convert_pointwise_raw_int :
+  forall (i o : dtype) (vol : Z -> Z -> Z -> Z -> Z) (nch : Z) (key : list N) (size cs : triple),
+  is_int i = true -> uint_dt o = true ->
+  0 < nch -> pos_triple size -> pos_triple cs ->
+  (forall x y z ch, let '(sx, sy, sz) := size in
+     0 <= x < sx -> 0 <= y < sy -> 0 <= z < sz -> 0 <= ch < nch -> in_range i (vol x y z ch)) ->
+  let enc := vraw_enc (dt_isz o) (Z.to_N nch) in
+  let dec := vraw_dec (dt_isz o) (Z.to_N nch) in
+  let s := {| sc_key := key; sc_size := size; sc_chunk_sizes := [cs];
+              sc_voxel_offset := Some (0, 0, 0) |} in
+  let st := fst (run (vchunk num) (list N) enc dec [s] []
+                     (convert_ops num (convert_scalar i o) (zvol vol) nch key size cs)) in
+  forall x y z ch,
+  let '(sx, sy, sz) := size in
+  0 <= x < sx -> 0 <= y < sy -> 0 <= z < sz -> 0 <= ch < nch ->
+  let c := chunk_of size cs x y z in
+  exists data,
+    read_chunk (vchunk num) (list N) dec [s] st key c = Ok (extents c, data) /\
+    voxel_in num c data x y z ch = Some (NI (clamp o (vol x y z ch))).
+Proof. exact convert_pointwise_raw_int. Qed.
+Print Assumptions C01_convert_pointwise_raw_int.
+
+(* and the object stored for EVERY grid chunk is the Neuroglancer raw chunk:
+   the little-endian items, [dt_isz o] bytes each, of the saturated input
+   values in (C,Z,Y,X) order *)
+Theorem C01_convert_stored_raw_int :
+  forall (i o : dtype) (vol : Z -> Z -> Z -> Z -> Z) (nch : Z) (key : list N) (size cs : triple),
+  is_int i = true -> uint_dt o = true ->
+  0 < nch -> pos_triple size -> pos_triple cs ->
+  (forall x y z ch, let '(sx, sy, sz) := size in
+     0 <= x < sx -> 0 <= y < sy -> 0 <= z < sz -> 0 <= ch < nch -> in_range i (vol x y z ch)) ->
+  let enc := vraw_enc (dt_isz o) (Z.to_N nch) in
+  let dec := vraw_dec (dt_isz o) (Z.to_N nch) in
+  let s := {| sc_key := key; sc_size := size; sc_chunk_sizes := [cs];
+              sc_voxel_offset := Some (0, 0, 0) |} in
+  let st := fst (run (vchunk num) (list N) enc dec [s] []
+                     (convert_ops num (convert_scalar i o) (zvol vol) nch key size cs)) in
+  forall c, In c (vgrid size cs) ->
+  lookup (list N) st key c
+  = Some (flat_map (Words.le_bytes (N.to_nat (dt_isz o)))
+                   (map Z.to_N (extract Z (clamp o) vol nch c))).
+Proof. exact convert_stored_raw_int. Qed.
+Print Assumptions C01_convert_stored_raw_int.
+
+(* non-vacuity: a 3x2x2 int16 volume with 2 channels and values from -150 to
+   1261 written as uint8 in 2x2x4 chunks meets the hypotheses; its chunks read
+   back saturated at both ends, and the stored bytes are those values *)
+Example C01_raw_int_example :
+  is_int I16 = true /\ uint_dt U8 = true /\ 0 < 2 /\ pos_triple (3, 2, 2) /\ pos_triple (2, 2, 4) /\
+  (forall x y z ch, 0 <= x < 3 -> 0 <= y < 2 -> 0 <= z < 2 -> 0 <= ch < 2 ->
+                    in_range I16 (lv_vol x y z ch)) /\
+  let enc := vraw_enc (dt_isz U8) (Z.to_N 2) in
+  let dec := vraw_dec (dt_isz U8) (Z.to_N 2) in
+  let st := fst (run (vchunk num) (list N) enc dec [lv_scale] []
+                     (convert_ops num (convert_scalar I16 U8) (zvol lv_vol) 2 [7%N] (3, 2, 2) (2, 2, 4))) in
+  chunk_of (3, 2, 2) (2, 2, 4) 1 0 1 = (0, 2, 0, 2, 0, 2) /\
+  read_chunk (vchunk num) (list N) dec [lv_scale] st [7%N] (0, 2, 0, 2, 0, 2)
+  = Ok ((2, 2, 2), map NI [0; 50; 0; 60; 0; 51; 0; 61; 255; 255; 255; 255; 255; 255; 255; 255]) /\
+  lookup (list N) st [7%N] (2, 3, 0, 2, 0, 2) = Some [250; 255; 251; 255; 255; 255; 255; 255]%N.
+Proof. exact convert_pointwise_raw_int_nonvacuous. Qed.
+Print Assumptions C01_raw_int_example.
